@@ -19,6 +19,7 @@ import Frp.Engines.Sess
 import Frp.Engines.Crash
 import Frp.Engines.Stack
 import Frp.Engines.E2e
+import Frp.Engines.Pool
 /-! Registry of driver engines (one line per engine). -/
 namespace Frp.Engines
 open Frp.Proto
@@ -45,5 +46,6 @@ def all : List (String × Engine) :=
   , ("crash", crash)
   , ("stack", stack)
   , ("e2e", e2e)
+  , ("pool", pool)
   ]
 end Frp.Engines
